@@ -142,6 +142,17 @@ pub fn check_validators(s: &str, out: &mut Vec<Finding>) {
         ));
     }
     if let Ok(f) = parsed {
+        // the other constructors (from a slice / a vector of levels) agree with the parser
+        let from_slice = TopicFilter::try_from(f.levels());
+        let from_vec = TopicFilter::try_from(f.levels().to_vec());
+        if !matches!(&from_slice, Ok(g) if *g == f) || !matches!(&from_vec, Ok(g) if *g == f) {
+            out.push(finding(
+                "level-constructors",
+                "differs".to_string(),
+                format!("{s:?}: TopicFilter::try_from(levels) gives {from_slice:?} (slice) / {from_vec:?} (vec), parser gives {f:?}"),
+                json!({"filter": s}),
+            ));
+        }
         let shown = f.to_string();
         match TopicFilter::from_str(&shown) {
             Ok(g) if g == f && shown == s => {}
